@@ -39,10 +39,12 @@ def E(rel, old, new, count=1):
 
 def corpus():
     out = []
-    for i in range(1, 20):
+    for name in ['m_ief'] + ['m_c%02d' % i for i in range(1, 20)]:
         try:
-            mod = importlib.import_module('selftest.m_c%02d' % i)
-        except ModuleNotFoundError:
+            mod = importlib.import_module('selftest.' + name)
+        except ModuleNotFoundError as e:
+            if e.name != 'selftest.' + name:
+                raise
             continue
         out += mod.VARIANTS
     return out
